@@ -228,6 +228,34 @@ theorem contiguous_facts (pos : Nat) (fs : List Field) (h : contiguous.go pos fs
       have : max pos f.stop = pos + f.size := by omega
       rw [this, hm]; omega
 
+theorem disjoint_iff_pairwise (fs : List Field) :
+    Cfi.Disjoint fs ↔ fs.Pairwise (fun f g => f.stop ≤ g.start ∨ g.stop ≤ f.start) := by
+  induction fs with
+  | nil => simp [Cfi.Disjoint]
+  | cons f fs ih =>
+    simp only [Cfi.Disjoint, List.pairwise_cons, ih, Cfi.disjointFrom]
+
+/-- the facts about a contiguous layout hold for the fields in the order they are
+declared in (any permutation of the column order) -/
+theorem contiguous_facts_perm (r : RegDef) (h : contiguous r = true) :
+    Cfi.Disjoint r.fields ∧ (∀ f ∈ r.fields, r.digits ≤ f.start) ∧
+    r.fields.foldl (fun m f => max m f.stop) r.digits = r.digits + (r.fields.map (·.size)).sum := by
+  have hp : (byColumn r.fields).Perm r.fields := List.mergeSort_perm _ _
+  obtain ⟨h1, h2, h3⟩ := contiguous_facts r.digits (byColumn r.fields) h
+  refine ⟨?_, ?_, ?_⟩
+  · rw [disjoint_iff_pairwise] at h1 ⊢
+    exact (List.Perm.pairwise_iff (fun {x y} hxy => hxy.symm) hp).mp h1
+  · intro f hf
+    exact h2 f (hp.mem_iff.mpr hf)
+  · have e1 : r.fields.foldl (fun m f => max m f.stop) r.digits =
+        (byColumn r.fields).foldl (fun m f => max m f.stop) r.digits := by
+      apply List.Perm.foldl_eq' hp.symm
+      intro x _ y _ z
+      omega
+    have e2 : (r.fields.map (·.size)).sum = ((byColumn r.fields).map (·.size)).sum :=
+      (List.Perm.sum_nat (hp.map (·.size))).symm
+    rw [e1, e2, h3]
+
 structure ItemBin (r : RegDef) (data : List Val) : Prop where
   hcont : contiguous r = true
   hid : r.ident.length ≤ r.digits
@@ -244,7 +272,7 @@ theorem item_bin (r : RegDef) (data : List Val) (h : ItemBin r data) :
       shapeOk r .binary (.bytes out) = true ∧ r.matchesBin out = .ok true ∧
       r.readDataBin out = .ok (canonData r .binary data (.bytes out)) := by
   obtain ⟨hcont, hid, hascii, hlen, hne, hlaw⟩ := h
-  obtain ⟨hdis, hstart, hmax⟩ := contiguous_facts r.digits r.fields hcont
+  obtain ⟨hdis, hstart, hmax⟩ := contiguous_facts_perm r hcont
   have hD : Cfi.Disjoint (r.idField :: r.fields) := by
     refine ⟨fun g hg => Or.inl ?_, hdis⟩
     have := hstart g hg
